@@ -171,6 +171,10 @@ func builtinArraySplice(call FunctionCall) Value {
 
 	start := valueToRangeIndex(call.Argument(0), length, false)
 	deleteCount := length - start
+	if len(call.ArgumentList) == 0 {
+		// Without any argument nothing is deleted (deleteCount is ToInteger(undefined)).
+		deleteCount = 0
+	}
 	if arg, ok := call.getArgument(1); ok {
 		deleteCount = valueToRangeIndex(arg, length-start, true)
 	}
